@@ -179,6 +179,9 @@ pub fn explore_sim<O, M, J>(
                     "execution cap {max_exec} reached in unit {unit} (bound {bound})"
                 ));
             }
+            if stats.replay_retries > 0 {
+                out.count("replay_retries", stats.replay_retries);
+            }
             for (d, n) in stats.by_deviations.iter().enumerate() {
                 out.count(&format!("executions_with_{d}_deviations"), *n);
             }
